@@ -27,11 +27,11 @@ struct Op { int code; std::string key, val; };
 struct Prog { int kind; std::vector<std::string> init; std::vector<std::vector<Op>> thr; bool unique = false; size_t limit = 0; };
 
 const char *opname(int kind, int code) {
-    static const char *seq[] = {"addlast", "addfirst", "popfirst", "poplast", "getfirst(copy)", "clear", "toarray", "removefirst", "addat(1)", "getlast(copy)", "tostring", "unlocked copying walk"};
-    static const char *map[] = {"put", "get(copy)", "remove", "clear", "lock+walk+unlock", "unlocked copying walk"};
+    static const char *seq[] = {"addlast", "addfirst", "popfirst", "poplast", "getfirst(copy)", "clear", "toarray", "removefirst", "addat(1)", "getlast(copy)", "tostring", "unlocked copying walk", "getat(1,copy)", "popat(1)", "removeat(1)"};
+    static const char *map[] = {"put", "get(copy)", "remove", "clear", "lock+walk+unlock", "unlocked copying walk", "getint", "putint", "get(size,copy)"};
     return kind <= K_LIST ? seq[code] : map[code];
 }
-std::string opstr(int kind, const Op &o) { std::string s = opname(kind, o.code); if (kind <= K_LIST) { if (o.code == 0 || o.code == 1 || o.code == 8) s += "(" + o.val + ")"; } else if (o.code <= 2) { s += "(" + o.key + (o.code == 0 ? "," + o.val : "") + ")"; } return s; }
+std::string opstr(int kind, const Op &o) { std::string s = opname(kind, o.code); if (kind <= K_LIST) { if (o.code == 0 || o.code == 1 || o.code == 8) s += "(" + o.val + ")"; } else if (o.code <= 2 || o.code >= 6) { s += "(" + o.key + (o.code == 0 || o.code == 7 ? "," + o.val : "") + ")"; } return s; }
 
 // ------------------------------------------------------------------ sequential model
 struct Model {
@@ -52,13 +52,17 @@ struct Model {
                 case 8: { if (limit && seq.size() >= limit) return "F"; if (seq.size() < 1) return "F"; seq.insert(seq.begin() + 1, o.val); return "T"; }
                 case 9: return seq.empty() ? "NULL" : seq.back();
                 case 11: return "";        // unlocked walk: every step is atomic on its own, the whole is not a snapshot: result not asserted
+                case 12: return seq.size() < 2 ? "NULL" : seq[1];
+                case 13: { if (seq.size() < 2) return "NULL"; std::string r = seq[1]; seq.erase(seq.begin() + 1); return r; }
+                case 14: { if (seq.size() < 2) return "F"; seq.erase(seq.begin() + 1); return "T"; }
                 default: { if (seq.empty()) return "NULL"; std::string r; for (auto &e : seq) r += e; return r; }
             }
         }
         auto find = [&](const std::string &k) { for (size_t i = kv.size(); i-- > 0;) if (kv[i].first == k) return (long)i; return -1L; };
         switch (o.code) {
-            case 0: { if (kind == K_LTBL) { if (unique) for (size_t i = 0; i < kv.size();) { if (kv[i].first == o.key) kv.erase(kv.begin() + (long)i); else i++; } kv.push_back({o.key, o.val}); return "T"; } long i = find(o.key); if (i >= 0) kv[(size_t)i].second = o.val; else kv.push_back({o.key, o.val}); return "T"; }
-            case 1: { long i = find(o.key); return i < 0 ? "NULL" : kv[(size_t)i].second; }
+            case 0: case 7: { if (kind == K_LTBL) { if (unique) for (size_t i = 0; i < kv.size();) { if (kv[i].first == o.key) kv.erase(kv.begin() + (long)i); else i++; } kv.push_back({o.key, o.val}); return "T"; } long i = find(o.key); if (i >= 0) kv[(size_t)i].second = o.val; else kv.push_back({o.key, o.val}); return "T"; }
+            case 1: case 8: { long i = find(o.key); return i < 0 ? "NULL" : kv[(size_t)i].second; }
+            case 6: { long i = find(o.key); return std::to_string(i < 0 ? 0LL : atoll(kv[(size_t)i].second.c_str())); }
             case 2: { size_t n = 0; for (size_t i = 0; i < kv.size();) if (kv[i].first == o.key) { kv.erase(kv.begin() + (long)i); n++; } else i++; return kind == K_LTBL ? std::to_string(n) : (n ? "T" : "F"); }
             case 3: kv.clear(); return "";
             case 5: return "";             // unlocked copying walk: result not asserted (see above)
@@ -208,6 +212,9 @@ std::string do_op(const Prog &p, void *c, const Op &o) {
                 case 7: return qvector_removefirst(v) ? "T" : "F";
                 case 8: return qvector_addat(v, 1, e.data()) ? "T" : "F";
                 case 11: { qvector_obj_t ob; memset(&ob, 0, sizeof ob); size_t g = 0; while (qvector_getnext(v, &ob, true) && g++ < 100) free(ob.data); return ""; }
+                case 12: r = qvector_getat(v, 1, true); break;
+                case 13: r = qvector_popat(v, 1); break;
+                case 14: return qvector_removeat(v, 1) ? "T" : "F";
                 default: r = qvector_getlast(v, true);
             }
             if (!r) return "NULL"; std::string s((char *)r, 4); free(r); return s; }
@@ -224,6 +231,9 @@ std::string do_op(const Prog &p, void *c, const Op &o) {
                 case 8: return qlist_addat(l, 1, e.data(), 4) ? "T" : "F";
                 case 9: r = qlist_getlast(l, &n, true); break;
                 case 11: { qlist_obj_t ob; memset(&ob, 0, sizeof ob); size_t g = 0; while (qlist_getnext(l, &ob, true) && g++ < 100) free(ob.data); return ""; }
+                case 12: r = qlist_getat(l, 1, &n, true); break;
+                case 13: r = qlist_popat(l, 1, &n); break;
+                case 14: return qlist_removeat(l, 1) ? "T" : "F";
                 default: { char *s = qlist_tostring(l); if (!s) return "NULL"; std::string x = s; free(s); return x; }
             }
             if (!r) return "NULL"; std::string s((char *)r, n); free(r); return s; }
@@ -234,6 +244,7 @@ std::string do_op(const Prog &p, void *c, const Op &o) {
                 case 2: return qtreetbl_remove(t, o.key.c_str()) ? "T" : "F";
                 case 3: qtreetbl_clear(t); return "";
                 case 5: return "";      // qtreetbl_getnext takes no lock by itself (documented: lock() around the walk): nothing to run unlocked
+                case 8: { size_t sz = 0; char *s = (char *)qtreetbl_get(t, o.key.c_str(), &sz, true); if (!s) return "NULL"; std::string x(s, sz ? sz - 1 : 0); free(s); return x; }
                 default: { std::string x; qtreetbl_obj_t ob; memset(&ob, 0, sizeof ob); qtreetbl_lock(t); size_t g = 0; while (qtreetbl_getnext(t, &ob, false) && g++ < 100) { x += std::string((char *)ob.name) + "=" + std::string((char *)ob.data) + ";"; } qtreetbl_unlock(t); return x; }
             } }
         case K_HASH: { qhashtbl_t *t = (qhashtbl_t *)c;
@@ -243,6 +254,9 @@ std::string do_op(const Prog &p, void *c, const Op &o) {
                 case 2: return qhashtbl_remove(t, o.key.c_str()) ? "T" : "F";
                 case 3: qhashtbl_clear(t); return "";
                 case 5: { qhashtbl_obj_t ob; memset(&ob, 0, sizeof ob); size_t g = 0; while (qhashtbl_getnext(t, &ob, true) && g++ < 100) { volatile size_t l = strlen(ob.name) + ob.size; (void)l; free(ob.name); free(ob.data); } return ""; }
+                case 6: return std::to_string((long long)qhashtbl_getint(t, o.key.c_str()));
+                case 7: return qhashtbl_putint(t, o.key.c_str(), atoll(o.val.c_str())) ? "T" : "F";
+                case 8: { size_t sz = 0; char *s = (char *)qhashtbl_get(t, o.key.c_str(), &sz, true); if (!s) return "NULL"; std::string x(s, sz ? sz - 1 : 0); free(s); return x; }
                 default: { std::vector<std::string> v; qhashtbl_obj_t ob; memset(&ob, 0, sizeof ob); qhashtbl_lock(t); size_t g = 0; while (qhashtbl_getnext(t, &ob, false) && g++ < 100) v.push_back(std::string(ob.name) + "=" + std::string((char *)ob.data)); qhashtbl_unlock(t); std::sort(v.begin(), v.end()); std::string x; for (auto &e : v) x += e + ";"; return x; }
             } }
         default: { qlisttbl_t *t = (qlisttbl_t *)c;
@@ -252,6 +266,9 @@ std::string do_op(const Prog &p, void *c, const Op &o) {
                 case 2: return std::to_string(qlisttbl_remove(t, o.key.c_str()));
                 case 3: qlisttbl_clear(t); return "";
                 case 5: { qlisttbl_obj_t ob; memset(&ob, 0, sizeof ob); size_t g = 0; while (qlisttbl_getnext(t, &ob, nullptr, true) && g++ < 100) { volatile size_t l = strlen(ob.name) + ob.size; (void)l; free(ob.name); free(ob.data); } return ""; }
+                case 6: return std::to_string((long long)qlisttbl_getint(t, o.key.c_str()));
+                case 7: return qlisttbl_putint(t, o.key.c_str(), atoll(o.val.c_str())) ? "T" : "F";
+                case 8: { size_t sz = 0; char *s = (char *)qlisttbl_get(t, o.key.c_str(), &sz, true); if (!s) return "NULL"; std::string x(s, sz ? sz - 1 : 0); free(s); return x; }
                 default: { std::string x; qlisttbl_obj_t ob; memset(&ob, 0, sizeof ob); qlisttbl_lock(t); size_t g = 0; bool fwd = t->lookupforward; std::vector<std::string> v; while (qlisttbl_getnext(t, &ob, nullptr, false) && g++ < 100) v.push_back(std::string(ob.name) + "=" + std::string((char *)ob.data)); qlisttbl_unlock(t); if (!fwd) std::reverse(v.begin(), v.end()); for (auto &e : v) x += e + ";"; return x; }
             } }
     }
@@ -385,7 +402,7 @@ void verdict(Ctx &c, const Prog &p, const Exec &ex) {
 // next node), and the listed property does not cover it.  Programs that contain such a walk are
 // therefore restricted to non-destructive company: removals / pops / clears become copying gets,
 // and a list table must not be UNIQUE (its put deletes the entries it replaces).
-bool destructive(int kind, int code) { return kind <= K_LIST ? (code == 2 || code == 3 || code == 5 || code == 7) : (code == 2 || code == 3); }
+bool destructive(int kind, int code) { return kind <= K_LIST ? (code == 2 || code == 3 || code == 5 || code == 7 || code == 13 || code == 14) : (code == 2 || code == 3); }
 void sanitize_unlocked(Prog &p) {
     bool has = false;
     for (auto &t : p.thr) for (auto &o : t) if (o.code == (p.kind <= K_LIST ? 11 : 5)) has = true;
@@ -407,8 +424,8 @@ Prog gen_prog(Src &s) {
         std::vector<Op> ops; int n = (int)s.range(1, 3);
         for (int i = 0; i < n; i++) {
             Op o;
-            if (p.kind <= K_LIST) { o.code = (int)s.pick({5, 3, 4, 3, 2, 1, 3, 2, 2, 1, p.kind == K_LIST ? 2 : 0, 2}); o.val = "v" + std::to_string(vc++); }
-            else { o.code = (int)s.pick({5, 3, 3, 1, 2, p.kind == K_TREE ? 0 : 2}); o.key = "k" + std::to_string(s.range(0, 2)); o.val = "v" + std::to_string(vc++); }
+            if (p.kind <= K_LIST) { o.code = (int)s.pick({5, 3, 4, 3, 2, 1, 3, 2, 2, 1, p.kind == K_LIST ? 2 : 0, 2, 2, 2, 1}); o.val = "v" + std::to_string(vc++); }
+            else { int ni = p.kind == K_TREE ? 0 : 2; o.code = (int)s.pick({5, 3, 3, 1, 2, ni, ni, ni, 2}); o.key = "k" + std::to_string(s.range(0, 2)); o.val = o.code == 7 ? std::to_string(10 + vc++) : "v" + std::to_string(vc++); }
             ops.push_back(o);
         }
         p.thr.push_back(ops);
@@ -499,7 +516,7 @@ bool vf_enumerate(Ctx &c, EnumStats &st) {
     uint64_t pidx = 0;
     for (int kind = 0; kind < K_NKIND; kind++) {
         std::vector<int> codes = kind <= K_LIST ? std::vector<int>{0, 2, 6, 8, 5, 11} : std::vector<int>{0, 1, 2, 4};
-        if (kind == K_HASH || kind == K_LTBL) codes.push_back(5);
+        if (kind == K_HASH || kind == K_LTBL) { codes.push_back(5); codes.push_back(6); }
         if (kind == K_LIST) codes.push_back(10);
         // programs: thread0 = [a] or [a,b], thread1 = [c]
         for (int ninit = 0; ninit <= (kind == K_LTBL ? 3 : 1); ninit++)
